@@ -271,7 +271,7 @@ type kworld struct {
 	cancel context.CancelFunc
 
 	fakeSrv, splitSrv, harnSrv *httptest.Server
-	fakeMu                     sync.Mutex // serialises requests: kinesisfake has no locking
+	fakeMu                     sync.Mutex         // serialises requests: kinesisfake has no locking
 	client                     *awskinesis.Client // harness client (not counted)
 	arn                        string
 
@@ -284,6 +284,7 @@ type kworld struct {
 	cursors     map[string]string
 	reads       int
 	inc         int
+	dead        int // incarnation that has crashed (its late hook calls are ignored)
 	runners     []string
 	assigned    map[string]string // current incarnation: shard -> runner
 	expectCur   map[string]string // cursor every restored shard must be handed (incarnation >= 2)
@@ -492,9 +493,14 @@ func (w *kworld) fullTick() {
 	w.mu.Unlock()
 	if !ok {
 		w.mu.Lock()
-		errs := fmt.Sprint(w.errs)
+		errs := append([]string{}, w.errs...)
 		w.mu.Unlock()
-		w.c.Inconclusive("watchdog: no discovery tick within %v (splitter errors: %s)", watchdog, errs)
+		for _, e := range errs {
+			if !strings.Contains(e, "context canceled") && !transportFlake(e) {
+				w.c.Fail("splitter-error", w.witness(), "no discovery tick any more: the splitter reported %q on its error channel and its discovery loop has stopped", e)
+			}
+		}
+		w.c.Inconclusive("watchdog: no discovery tick within %v (splitter errors: %v)", watchdog, errs)
 	}
 	w.barrier()
 }
@@ -541,6 +547,9 @@ func (w *kworld) judgeAssign(inc int, runner string, sp *workerpb.SourceSplit) {
 	id := sp.SplitId
 	t := w.truth[id]
 	cur := w.inc
+	if inc == w.dead {
+		cur = -1
+	}
 	prev, dup := w.assigned[id]
 	fin := w.finished[id]
 	var unfinishedParents []string
@@ -690,8 +699,10 @@ func (w *kworld) checkpoint(id uint64) (*snapshotpb.SourceCheckpoint, map[string
 
 func (w *kworld) restore(ck *snapshotpb.SourceCheckpoint, fin map[string]bool, curs map[string]string, nRunners int) {
 	w.logf("crash: Close() incarnation %d; readers, cursors and finished set roll back to checkpoint %d", w.inc, ck.CheckpointId)
-	w.splitter.Close()
+	// from here on hook calls of the crashed incarnation (a discovery tick in flight) are not
+	// judged: marking it dead and rolling the world back happen in one critical section
 	w.mu.Lock()
+	w.dead = w.inc
 	w.finished = fin
 	w.cursors = map[string]string{}
 	w.expectCur = map[string]string{}
@@ -701,6 +712,7 @@ func (w *kworld) restore(ck *snapshotpb.SourceCheckpoint, fin map[string]bool, c
 		w.ckptHad[k] = true
 	}
 	w.mu.Unlock()
+	w.splitter.Close()
 	w.c.Feat("restores", 1)
 	if len(curs) > 0 {
 		w.c.Feat("restores_with_assigned_shards", 1)
@@ -839,13 +851,13 @@ func (w *kworld) drain() {
 	}
 	errs := append([]string{}, w.errs...)
 	w.mu.Unlock()
-	// after an assignment violation the harness readers no longer mirror what real readers would
-	// hold (e.g. a re-assigned finished shard would be read and finished a second time)
 	for _, e := range errs {
 		if transportFlake(e) && !strings.Contains(e, "context canceled") && !w.c.Violated() {
 			w.c.Inconclusive("loopback transport error between splitter and kinesisfake: %s", e)
 		}
 	}
+	// after an assignment violation the harness readers no longer mirror what real readers would
+	// hold (e.g. a re-assigned finished shard would be read and finished a second time)
 	if len(lost) > 0 && !w.c.Violated() {
 		w.c.Violate("shard-without-reader", w.witness(), "after every parent was finished and a full discovery round ran, no reader holds %v (incarnation %d)", lost, w.inc)
 	}
